@@ -242,6 +242,7 @@ class FuncSpec:
         self.inline = False
         self.requires = []; self.ensures = []; self.exits_iff = None; self.valid_iff = None
         self.assigns = None           # None = derive (nothing for const methods), list of X otherwise
+        self.static_invs = {}         # local static name -> [Clause]
         self.ghosts = []              # (type, name)
         self.loops = {}
         self.callbacks = {}           # param name -> dict(arg names, requires [X], ensures [X], uf name)
@@ -415,6 +416,12 @@ class SpecDB:
                     if not hasattr(ctx, 'calls'): ctx.calls = []
                     call_ex = self.expand(parse_expr('__args(' + m2.group(3) + ')'))
                     ctx.calls.append((m2.group(1), m2.group(2), list(call_ex.args)))
+                elif head == 'static':
+                    # static NAME invariant EXPR : representation invariant of a function-local static (established by its
+                    # initialiser, assumed where the declaration is reached, re-established at every return)
+                    m2 = re.match(r'^(\w+)\s+invariant\s+(.*)$', rest)
+                    if not m2 or not isinstance(ctx, FuncSpec): raise SpecError('static: expected `static NAME invariant EXPR` inside a function block')
+                    ctx.static_invs.setdefault(m2.group(1), []).append(Clause('static_invariant', self.expand(parse_expr(m2.group(2))), m2.group(2), engines, None, ln))
                 elif head == 'on_exit':
                     if loop is None: raise SpecError('on_exit outside loop')
                     loop.on_exit.append(Clause('on_exit', self.expand(parse_expr(rest)), rest, engines, label, ln))
